@@ -119,6 +119,14 @@ class C02(SessionCheck):
                     continue
                 want = forced[k]
                 k += 1
+                if ev[0] == 0 and ev[3] and new[3] != ev[3][0]:
+                    fails.append(Failure("oracle", "chosen-machine",
+                                         f"event #{i}: dispatch({ev[1:3]}, machine {ev[3][0]}) was accepted but the "
+                                         f"operation was put on machine {new[3]}", expected=ev[3][0], observed=new[3]))
+                if ev[0] == 8 and ev[2] != -1 and new[3] != ev[2]:
+                    fails.append(Failure("oracle", "chosen-machine",
+                                         f"event #{i}: env.step(({ev[1]}, {ev[2]})) was accepted but the operation "
+                                         f"was put on machine {new[3]}", expected=ev[2], observed=new[3]))
                 if new[2] != want:
                     fails.append(Failure("oracle", "start-forced",
                                          f"event #{i}: operation {new[:2]} on machine {new[3]} starts at {new[2]}, "
